@@ -92,7 +92,8 @@ Definition msg_outs (o : list gout) : list (peer * mid) :=
 Definition below (sc : list (peer * Z)) (thr : Z) (p : peer) : bool := score_of sc p <? thr.
 
 (* which property family a code belongs to: 6x -> C06, 9x -> C09, 17x -> C17 *)
-Definition mon_step (P : gparams) (m : mon) (st : gstepr) : option nat * mon :=
+Definition mon_step (ign : nat -> bool) (P : gparams) (m : mon) (st : gstepr) : option nat * mon :=
+  let hit := fun (c : nat) (b : bool) => b && negb (ign c) in
   let g := mo_truth m in
   let s := core g in
   let sc := gs_scores st in
@@ -107,79 +108,79 @@ Definition mon_step (P : gparams) (m : mon) (st : gstepr) : option nat * mon :=
         let excl := fun p => (match m_from msg with Some q => Nat.eqb p q | None => false end)
                              || (match m_author msg with Some q => Nat.eqb p q | None => false end) in
         let accepted := match gs_op st with GRecvMsgs p _ _ => accept_from P sc g p | _ => true end in
-        if negb accepted then (if match out with [] => true | _ => false end then None else Some 91%nat)
-        else if existsb excl R then Some 61%nat
-        else if existsb (fun p => negb (memb p tm) && negb (memb p (aget_l t (mesh s))) && negb (memb p (aget_l t (fanout s)))) R then Some 62%nat
-        else if existsb (fun p => negb (memb p tm) && negb (memb p (aget_l t (mesh s)))) R then Some 68%nat   (* fanout member that unsubscribed: known finding class *)
-        else if existsb (fun p => negb (memb p tm)) R then Some 67%nat     (* mesh member that is not (or no longer) subscribed: known finding class *)
+        if negb accepted then (if hit 91%nat (negb (match out with [] => true | _ => false end)) then Some 91%nat else None)
+        else if hit 61%nat (existsb excl R) then Some 61%nat
+        else if hit 62%nat (existsb (fun p => negb (memb p tm) && negb (memb p (aget_l t (mesh s))) && negb (memb p (aget_l t (fanout s)))) R) then Some 62%nat
+        else if hit 68%nat (existsb (fun p => negb (memb p tm) && negb (memb p (aget_l t (mesh s)))) R) then Some 68%nat   (* fanout member that unsubscribed: known finding class *)
+        else if hit 67%nat (existsb (fun p => negb (memb p tm)) R) then Some 67%nat     (* mesh member that is not (or no longer) subscribed: known finding class *)
         else if negb (match gs_op st, aget t (mesh s) with GRecvMsgs _ _ _, None => false | _, _ => true end) then
           (* a message in a topic the node is not subscribed to is dropped before the router sees it *)
-          (match R with [] => None | _ => Some 62%nat end)
+          (if hit 62%nat (negb (match R with [] => true | _ => false end)) then Some 62%nat else None)
         else if negb (memb (m_id msg) (seen g)) && negb (gFlood P && match m_from msg with None => true | _ => false end) then
-          if existsb (fun p => memb p tm && has_queue g p && negb (excl p) && negb (memb p R)) (direct s) then Some 63%nat
-          else if existsb (fun p => negb (speaks_mesh s p) && has_queue g p && negb (excl p)
-                                    && negb (below sc (pPublishThr (gCore P)) p) && negb (memb p R)) tm then Some 64%nat
-          else if existsb (fun p => has_queue g p && negb (excl p) && negb (is_unwanted g p (m_id msg)) && negb (memb p R))
-                          (aget_l t (mesh s)) then Some 65%nat
-          else if existsb (fun p => speaks_mesh s p && negb (memb p (direct s)) && negb (memb p (aget_l t (mesh s)))
+          if hit 63%nat (existsb (fun p => memb p tm && has_queue g p && negb (excl p) && negb (memb p R)) (direct s)) then Some 63%nat
+          else if hit 64%nat (existsb (fun p => negb (speaks_mesh s p) && has_queue g p && negb (excl p)
+                                    && negb (below sc (pPublishThr (gCore P)) p) && negb (memb p R)) tm) then Some 64%nat
+          else if hit 65%nat (existsb (fun p => has_queue g p && negb (excl p) && negb (is_unwanted g p (m_id msg)) && negb (memb p R))
+                          (aget_l t (mesh s))) then Some 65%nat
+          else if hit 95%nat (existsb (fun p => speaks_mesh s p && negb (memb p (direct s)) && negb (memb p (aget_l t (mesh s)))
                                     && negb (memb p (aget_l t (fanout s)))   (* an existing fanout member is only dropped at the next heartbeat *)
-                                    && below sc (pPublishThr (gCore P)) p) R then Some 95%nat
+                                    && below sc (pPublishThr (gCore P)) p) R) then Some 95%nat
           else None
-        else if gFlood P && (match m_from msg with None => true | _ => false end)
-                && existsb (fun p => negb (memb p (direct s)) && below sc (pPublishThr (gCore P)) p) R then Some 95%nat
+        else if hit 95%nat (gFlood P && (match m_from msg with None => true | _ => false end)
+                && existsb (fun p => negb (memb p (direct s)) && below sc (pPublishThr (gCore P)) p) R) then Some 95%nat
         else None
     | GPublishLocal msg =>
         (* a local-only publication reaches nobody *)
-        (match msg_outs out with [] => None | _ => Some 66%nat end)
+        (if hit 66%nat (negb (match msg_outs out with [] => true | _ => false end)) then Some 66%nat else None)
     | GRecvIHave p _ _ pr =>
         if negb (accept_from P sc g p) || below sc (gGossipThr P) p
-        then (if existsb (fun x => match x with OIWant _ _ => true | _ => false end) out then Some 94%nat else None)
+        then (if hit 94%nat (existsb (fun x => match x with OIWant _ _ => true | _ => false end) out) then Some 94%nat else None)
         else
           let n := fold_left (fun acc x => match x with OIWant _ l => (acc + length l)%nat | _ => acc end) out 0%nat in
-          if Nat.ltb (gMaxIHaveLen P) (cget p (mo_asked m) + n) then Some 173%nat
+          if hit 173%nat (Nat.ltb (gMaxIHaveLen P) (cget p (mo_asked m) + n)) then Some 173%nat
           (* the promise the tracer recorded (observed in its table) must be for an id that was really requested on the wire *)
-          else if match pr with
+          else if hit 176%nat (match pr with
                   | Some i => negb (existsb (fun x => match x with OIWant _ l => memb i l | _ => false end) out)
-                  | None => false end then Some 176%nat
-          else if existsb (fun x => match x with OIWant _ l => existsb (fun i => memb i (seen g)) l | _ => false end) out then Some 178%nat
+                  | None => false end) then Some 176%nat
+          else if hit 178%nat (existsb (fun x => match x with OIWant _ l => existsb (fun i => memb i (seen g)) l | _ => false end) out) then Some 178%nat
           else None
     | GRecvIWant p _ =>
-        if (negb (accept_from P sc g p) || below sc (gGossipThr P) p) && negb (match msg_outs out with [] => true | _ => false end) then Some 93%nat
-        else if existsb (fun pi => is_unwanted g (fst pi) (snd pi)) (msg_outs out) then Some 175%nat
-        else if existsb (fun pi => Nat.leb (gRetrans P) (tx_get (snd pi) (fst pi) (mo_served m))) (msg_outs out) then Some 174%nat
+        if hit 93%nat ((negb (accept_from P sc g p) || below sc (gGossipThr P) p) && negb (match msg_outs out with [] => true | _ => false end)) then Some 93%nat
+        else if hit 175%nat (existsb (fun pi => is_unwanted g (fst pi) (snd pi)) (msg_outs out)) then Some 175%nat
+        else if hit 174%nat (existsb (fun pi => Nat.leb (gRetrans P) (tx_get (snd pi) (fst pi) (mo_served m))) (msg_outs out)) then Some 174%nat
         else None
     | GHeartbeat _ _ _ =>
-        if existsb (fun x => match x with
+        if hit 171%nat (existsb (fun x => match x with
                              | OIHave p t ids =>
                                  Nat.ltb (gMaxIHaveLen P) (length ids)
-                             | _ => false end) out then Some 171%nat
-        else if existsb (fun x => match x with
+                             | _ => false end) out) then Some 171%nat
+        else if hit 172%nat (existsb (fun x => match x with
                                   | OIHave p t ids =>
                                       negb (memb p (aget_l t (tmap s))) || memb p (direct s) || negb (speaks_mesh s p)
                                       || memb p (aget_l t (gn_mesh (gs_snap st)))
-                                  | _ => false end) out then Some 172%nat
-        else if existsb (fun x => match x with OIHave p _ _ => below sc (gGossipThr P) p | _ => false end) out then Some 92%nat
-        else if existsb (fun e => existsb (fun p => below sc (pPublishThr (gCore P)) p) (snd e)) (gn_fanout (gs_snap st)) then Some 97%nat
+                                  | _ => false end) out) then Some 172%nat
+        else if hit 92%nat (existsb (fun x => match x with OIHave p _ _ => below sc (gGossipThr P) p | _ => false end) out) then Some 92%nat
+        else if hit 97%nat (existsb (fun e => existsb (fun p => below sc (pPublishThr (gCore P)) p) (snd e)) (gn_fanout (gs_snap st))) then Some 97%nat
         (* a fanout whose topic was published to within FanoutTTL keeps every member that is still subscribed and at / above the publish threshold *)
-        else if existsb (fun e =>
+        else if hit 60%nat (existsb (fun e =>
                    match aget (fst e) (mo_lastpub m), aget (fst e) (mesh s) with
                    | Some lp, None =>
                        negb (lp + pFanoutTTL (gCore P) <? now s)
                        && existsb (fun p => memb p (aget_l (fst e) (tmap s)) && negb (below sc (pPublishThr (gCore P)) p)
                                             && negb (memb p (aget_l (fst e) (gn_fanout (gs_snap st))))) (snd e)
                    | _, _ => false
-                   end) (fanout s) then Some 60%nat
+                   end) (fanout s)) then Some 60%nat
         else None
     | GCore (ORecvGraft p _) | GCore (ORecvPrune p _) | GRecvIDontWant p _ =>
-        if negb (accept_from P sc g p) && negb (match out with [] => true | _ => false end) then Some 91%nat else None
+        if hit 91%nat (negb (accept_from P sc g p) && negb (match out with [] => true | _ => false end)) then Some 91%nat else None
     | _ => None
     end in
   (* somebody with a negative score was added to a mesh in this step *)
   let v2 := match v with
             | Some c => Some c
             | None =>
-                if existsb (fun e => existsb (fun p => negb (memb p (aget_l (fst e) (mesh s))) && (score_of sc p <? 0)) (snd e))
-                           (gn_mesh (gs_snap st)) then Some 96%nat else None
+                if hit 96%nat (existsb (fun e => existsb (fun p => negb (memb p (aget_l (fst e) (mesh s))) && (score_of sc p <? 0)) (snd e))
+                           (gn_mesh (gs_snap st))) then Some 96%nat else None
             end in
   let asked' := match gs_op st with
                 | GHeartbeat _ _ _ => []
@@ -217,15 +218,15 @@ Definition mon_step (P : gparams) (m : mon) (st : gstepr) : option nat * mon :=
         else []
     | _ => [] end in
   let v19 :=
-    if negb (alt_ok (map fst (tv_mesh (mo_view m))) tr) then Some 191%nat
-    else if negb (tview_eqb view' {| tv_peers := map fst (peers (core (truth_step P sc g st))); tv_mesh := gn_mesh (gs_snap st) |}) then Some 192%nat
-    else if negb (nodup_b delivered_now) || existsb (fun i => memb i (mo_delivered m)) delivered_now then Some 193%nat
-    else if negb (seteq delivered_now accepted_ids) then Some 196%nat
-    else if match gs_op st with
+    if hit 191%nat (negb (alt_ok (map fst (tv_mesh (mo_view m))) tr)) then Some 191%nat
+    else if hit 192%nat (negb (tview_eqb view' {| tv_peers := map fst (peers (core (truth_step P sc g st))); tv_mesh := gn_mesh (gs_snap st) |})) then Some 192%nat
+    else if hit 193%nat (negb (nodup_b delivered_now) || existsb (fun i => memb i (mo_delivered m)) delivered_now) then Some 193%nat
+    else if hit 196%nat (negb (seteq delivered_now accepted_ids)) then Some 196%nat
+    else if hit 194%nat (match gs_op st with
             | GPublish msg _ | GPublishLocal msg => negb (Nat.eqb (count_id (m_id msg) published_now) 1) || negb (Nat.eqb (length published_now) 1)
-            | _ => negb (match published_now with [] => true | _ => false end) end then Some 194%nat
-    else if negb (forallb (fun e => Nat.eqb (length (filter (fun x => match x with TSend q => Nat.eqb q (fst e) | _ => false end) tr)) (snd e)) (gs_nrpc st))
-            || existsb (fun x => match x with TSend q => negb (match aget q (gs_nrpc st) with Some _ => true | None => false end) | TDrop _ => true | _ => false end) tr then Some 195%nat
+            | _ => negb (match published_now with [] => true | _ => false end) end) then Some 194%nat
+    else if hit 195%nat (negb (forallb (fun e => Nat.eqb (length (filter (fun x => match x with TSend q => Nat.eqb q (fst e) | _ => false end) tr)) (snd e)) (gs_nrpc st))
+            || existsb (fun x => match x with TSend q => negb (match aget q (gs_nrpc st) with Some _ => true | None => false end) | TDrop _ => true | _ => false end) tr) then Some 195%nat
     else None in
   let v3 := match v2 with Some c => Some c | None => v19 end in
   let lastpub' := match gs_op st with
@@ -236,34 +237,48 @@ Definition mon_step (P : gparams) (m : mon) (st : gstepr) : option nat * mon :=
 
 Section ForProperty.
 Variable which : nat.   (* 6 -> C06, 9 -> C09, 17 -> C17, 0 -> all *)
-Definition keep (v : option nat) : option nat :=
-  match v with
-  | Some c => if Nat.eqb which 0 || Nat.eqb (c / 10)%nat which then Some c else None
-  | None => None
+Definition kept (c : nat) : bool := Nat.eqb which 0 || Nat.eqb (c / 10)%nat which.
+(* 67 / 68 are the classes of two recorded findings (C06).  A clause of another property, or a finding class, never hides
+   a clause of the property under check: the monitor is evaluated with the clauses that are not wanted switched off -
+   first without the finding classes, then with them *)
+Definition finding_class (c : nat) : bool := Nat.eqb c 67 || Nat.eqb c 68.
+Definition mon_pick (P : gparams) (m : mon) (st : gstepr) : option nat * mon :=
+  match mon_step (fun c => negb (kept c) || finding_class c) P m st with
+  | (Some c, m') => (Some c, m')
+  | (None, _) => mon_step (fun c => negb (kept c)) P m st
   end.
 
-Fixpoint mon_only (P : gparams) (m : mon) (l : list gstepr) (idx : nat) : option (nat * nat) :=
+(* a finding-class failure is remembered and the scan goes on: it is reported only if the history shows nothing else *)
+Fixpoint mon_only (P : gparams) (m : mon) (l : list gstepr) (idx : nat) (fnd : option (nat * nat)) : option (nat * nat) :=
   match l with
-  | [] => None
-  | st :: l' => let (v, m') := mon_step P m st in
-                match keep v with Some c => Some (idx, c) | None => mon_only P m' l' (S idx) end
+  | [] => fnd
+  | st :: l' => let (v, m') := mon_pick P m st in
+                match v with
+                | Some c => if finding_class c then mon_only P m' l' (S idx) (match fnd with Some f => Some f | None => Some (idx, c) end)
+                            else Some (idx, c)
+                | None => mon_only P m' l' (S idx) fnd
+                end
   end.
 
-Fixpoint exec (P : gparams) (g : gstate) (m : mon) (l : list gstepr) (idx : nat) : verdict :=
+Fixpoint exec (P : gparams) (g : gstate) (m : mon) (l : list gstepr) (idx : nat) (fnd : option (nat * nat)) : verdict :=
   match l with
-  | [] => VOk
+  | [] => match fnd with Some (i, c) => VMonFail i c | None => VOk end
   | st :: l' =>
-      let (v, m') := mon_step P m st in
-      match keep v with
+      let (v, m') := mon_pick P m st in
+      match (match v with Some c => if finding_class c then None else Some c | None => None end) with
       | Some c => VMonFail idx c
       | None =>
-          let fail := fun code => match mon_only P m' l' (S idx) with Some (i, c) => VMonFail i c | None => VMismatch idx code end in
+          let fnd' := match fnd, v with Some f, _ => Some f | None, Some c => Some (idx, c) | None, None => None end in
+          (* after a disagreement with the model: a concrete failing history if the monitor finds one; a finding class never hides the disagreement *)
+          let fail := fun code => match mon_only P m' l' (S idx) None with
+                                  | Some (i, c) => if finding_class c then VMismatch idx code else VMonFail i c
+                                  | None => VMismatch idx code end in
           match gstep P (gs_scores st) g (gs_op st) with
           | None => fail 2%nat
           | Some (g', out) =>
               if negb (gouts_eqb out (gs_out st)) then fail 3%nat
               else match snap_ok g' (gs_snap st) with
-                   | O => exec P g' m' l' (S idx)
+                   | O => exec P g' m' l' (S idx) fnd'
                    | c => fail c
                    end
           end
@@ -272,6 +287,6 @@ Fixpoint exec (P : gparams) (g : gstate) (m : mon) (l : list gstepr) (idx : nat)
 
 Definition check_gcase_for (c : gcase) : verdict :=
   if negb (valid_params (gCore (gc_params c))) then VMismatch 0 99
-  else exec (gc_params c) (ginit (gc_params c)) {| mo_truth := ginit (gc_params c); mo_asked := []; mo_served := []; mo_lastpub := []; mo_view := tview0; mo_delivered := [] |} (gc_steps c) 0.
+  else exec (gc_params c) (ginit (gc_params c)) {| mo_truth := ginit (gc_params c); mo_asked := []; mo_served := []; mo_lastpub := []; mo_view := tview0; mo_delivered := [] |} (gc_steps c) 0 None.
 End ForProperty.
 Definition check_gcase := check_gcase_for 0.
